@@ -743,6 +743,10 @@ exh:
 			h.Report("c15.config", c, evalC15Cfg(c))
 		}
 		if h.Shard == 0 {
+			for _, u := range []c19Unread{{Cmd: []string{"PING"}}, {Cmd: []string{"GET", "k"}, Before: 2}} {
+				h.Col.Case(true, []byte(fmt.Sprint("unread", u)), "reply-unread-at-stop")
+				h.Report("c15.unread", u, evalC15Unread(u))
+			}
 			for _, call := range []string{"stop", "restart"} {
 				c := c19Shutdown{Call: call, Bystanders: 2, Before: 1}
 				h.Col.Case(true, []byte(fmt.Sprint("shutdown", c)), "lifecycle-call-from-inside-a-command")
